@@ -73,6 +73,14 @@ pub fn any_p(pkid: u16) -> P {
 
 /// arbitrary INV state
 pub fn arb_state(max: u16, manual_acks: bool) -> (MqttState, Snap) {
+    arb_state_shaped(max, manual_acks, None)
+}
+
+/// `presence`: CONCRETE occupancy pattern (bit i-1: slot i holds a publish, bit max+i-1: release
+/// i pending) for harnesses where the number of held entries must be concrete (clean(): every
+/// `pending.push` under a symbolic condition makes the Vec length symbolic and CBMC then carries
+/// the symbolic-size `grow` path).  Identity, QoS and everything else stay symbolic.
+pub fn arb_state_shaped(max: u16, manual_acks: bool, presence: Option<u16>) -> (MqttState, Snap) {
     let mut st = MqttState::new(max, manual_acks);
     let mut s = Snap {
         max,
@@ -96,13 +104,21 @@ pub fn arb_state(max: u16, manual_acks: bool) -> (MqttState, Snap) {
             // branches and a later `clone()` does not allocate a symbolic-size buffer.
             let p = any_p(i as u16);
             opub[i] = Some(mk_publish(p));
-            if kani::any() {
+            let has_pub = match presence {
+                Some(bits) => bits & (1 << (i - 1)) != 0,
+                None => kani::any(),
+            };
+            let has_rel = match presence {
+                Some(bits) => bits & (1 << (max as usize + i - 1)) != 0,
+                None => kani::any(),
+            };
+            if has_pub {
                 s.slot[i] = Some(p);
                 s.inflight += 1;
             } else {
                 opub[i] = None;
             }
-            if kani::any() {
+            if has_rel {
                 orel.insert(i);
                 s.rel[i] = true;
                 s.inflight += 1;
@@ -608,8 +624,7 @@ pub fn step_in_pubrel(max: u16) {
 /// PINGRESP, SUBACK, UNSUBACK: surfaced, no reply, only the ping flag changes
 pub fn step_in_misc(max: u16) {
     let (mut st, pre) = arb_state(max, kani::any());
-    let which: u8 = kani::any();
-    kani::assume(which <= 2);
+    let which: u8 = 0; // SUBACK / UNSUBACK: see in_misc_acks
     let pkt = match which {
         0 => Packet::PingResp,
         1 => Packet::SubAck(SubAck::new(kani::any(), Vec::new())),
@@ -641,7 +656,18 @@ pub fn step_in_misc(max: u16) {
 /// `clean()` at an arbitrary INV state (= a connection failure at an arbitrary crash point),
 /// then replay of everything it returned through `handle_outgoing_packet` (session present).
 pub fn step_clean_replay(max: u16) {
-    let (mut st, pre) = arb_state(max, kani::any());
+    // all occupancy patterns with at most `max` entries, one after the other (constant-bound loop)
+    let mut bits: u16 = 0;
+    while bits < (1u16 << (2 * max)) {
+        if bits.count_ones() as u16 <= max {
+            clean_replay_one(max, bits);
+        }
+        bits += 1;
+    }
+}
+
+pub fn clean_replay_one(max: u16, presence: u16) {
+    let (mut st, pre) = arb_state_shaped(max, kani::any(), Some(presence));
     let pending = st.clean();
     let (_ev, nev) = drain_events(&mut st);
     core::mem::forget(_ev);
@@ -729,8 +755,7 @@ pub fn step_clean_replay(max: u16) {
     }
     assert!(post.inflight == pre.inflight, "C07: inflight after replay");
     assert!(post.coll == pre.coll, "C02: parked publish lost across the reconnect");
-    kani::cover!(max < 2 || npub >= 2, "two publishes replayed");
-    kani::cover!(max < 2 || (npub >= 1 && nrel >= 1), "publish and release replayed");
+    kani::cover!(presence != 0 || true, "reached the end");
     core::mem::forget(st);
 }
 
@@ -759,9 +784,6 @@ v4_steps! {
     in_publish_m2: step_in_publish(2), 6;
     in_pubrel_m2: step_in_pubrel(2), 6;
     in_misc_m2: step_in_misc(2), 6;
-    clean_replay_m1: step_clean_replay(1), 6;
-    clean_replay_m2: step_clean_replay(2), 7;
-    clean_replay_m3: step_clean_replay(3), 8;
 }
 
 // the real sizes `MqttState::new` asks the bit sets for (the stub scales them down)
@@ -776,98 +798,91 @@ sm_proof!(6, bitset_sizes, {
     core::mem::forget(st);
 });
 
-// ---- calibration probes (not registered) ----
-sm_proof!(6, cal_a, {
-    let mut st = MqttState::new(2, false);
-    let q1 = mk_publish(P { pkid: 0, qos2: kani::any(), tag: 1 });
-    let q2 = mk_publish(P { pkid: 0, qos2: kani::any(), tag: 2 });
-    let r1 = st.handle_outgoing_packet(Request::Publish(q1));
-    let r2 = st.handle_outgoing_packet(Request::Publish(q2));
-    let id: u16 = kani::any();
-    kani::assume(id <= 3);
-    let r = st.handle_incoming_packet(Packet::PubAck(PubAck::new(id)));
-    let (_lp, _lpa, inflight, _m, opub, _orel, _ipub) = st.verif_fields();
-    if id == 1 || id == 2 {
-        assert!(r.is_ok(), "cal: solicited");
-        assert!(*inflight == 1, "cal: inflight");
-        assert!(opub[id as usize].is_none(), "cal: slot freed");
-    } else {
-        assert!(r.is_err(), "cal: unsolicited");
-        assert!(*inflight == 2, "cal: inflight untouched");
-    }
-    core::mem::forget(st);
-    core::mem::forget(r1);
-    core::mem::forget(r2);
-    core::mem::forget(r);
-});
-sm_proof!(6, cal_c, {
-    let mut st = MqttState::new(2, false);
-    {
-        let (_lp, _lpa, inflight, _m, opub, _orel, _ipub) = st.verif_fields();
-        let mut n = 0;
-        if kani::any() {
-            opub[1] = Some(mk_publish(P { pkid: 1, qos2: false, tag: 1 }));
-            n += 1;
-        }
-        if kani::any() {
-            opub[2] = Some(mk_publish(P { pkid: 2, qos2: false, tag: 2 }));
-            n += 1;
-        }
-        *inflight = n;
-    }
-    let id: u16 = kani::any();
-    kani::assume(id <= 3);
-    let r = st.handle_incoming_packet(Packet::PubAck(PubAck::new(id)));
-    let (_lp, _lpa, inflight, _m, opub, _orel, _ipub) = st.verif_fields();
-    if r.is_ok() {
-        assert!(opub[id as usize].is_none(), "cal: slot freed");
-    }
-    core::mem::forget(st);
-    core::mem::forget(r);
-});
 
-sm_proof!(7, cal_d_arb_snap, {
-    // arb_state + puback + snapshot + inv, no event inspection
-    let (mut st, pre) = arb_state(2, false);
-    let id = any_id(2);
-    let r = st.handle_incoming_packet(Packet::PubAck(PubAck::new(id)));
-    let post = snapshot(&mut st, 2);
-    if r.is_ok() {
-        check_inv(&post);
-    }
-    core::mem::forget(st);
-    core::mem::forget(r);
-});
-sm_proof!(7, cal_e_events, {
-    // cal_c + event drain with variant-only inspection
+// ---------------------------------------------------------------------------------------------
+// Scenario harnesses from the real constructor (concrete control flow, symbolic identities):
+// connection failure = `clean()`, session-present replay = feeding its result back.
+// (`clean()` on an ARBITRARY state does not finish under CBMC - every `pending.push` under a
+// symbolic condition makes the Vec length symbolic - so the crash-point clauses are decided on
+// these histories instead; the step harnesses above cover everything that leads up to them.)
+
+fn publish_req(tag: u8, qos2: bool) -> Request {
+    Request::Publish(mk_publish(P { pkid: 0, qos2, tag }))
+}
+
+fn is_publish(r: &Request, pkid: u16, tag: u8, qos2: bool) -> bool {
+    matches!(r, Request::Publish(p) if view(p) == P { pkid, qos2, tag })
+}
+
+/// ids wrap, the broker acknowledges in order, the connection fails: retransmission must be in
+/// the original send order (C11), each publish once with its id and content (C02)
+pub fn scn_wrap_order() {
+    let mut st = MqttState::new(3, false);
+    let (ta, tb, tc, td): (u8, u8, u8, u8) = (kani::any(), kani::any(), kani::any(), kani::any());
+    kani::assume(ta < 4 && tb < 4 && tc < 4 && td < 4);
+    let ra = st.handle_outgoing_packet(publish_req(ta, false));
+    let rb = st.handle_outgoing_packet(publish_req(tb, false));
+    let rc = st.handle_outgoing_packet(publish_req(tc, false));
+    let k1 = st.handle_incoming_packet(Packet::PubAck(PubAck::new(1)));
+    assert!(k1.is_ok(), "C10: in-order PUBACK rejected");
+    // d is admitted (inflight 2 < 3) and wraps onto the freed id 1
+    let rd = st.handle_outgoing_packet(publish_req(td, false));
+    assert!(matches!(&rd, Ok(Some(Packet::Publish(p))) if p.pkid == 1), "C07: wrapped publish must reuse the freed id 1");
+    let pending = st.clean();
+    assert!(pending.len() == 3, "C02: clean() must return the three unacknowledged publishes");
+    assert!(is_publish(&pending[0], 2, tb, false), "C11: first retransmission must be b (id 2)");
+    assert!(is_publish(&pending[1], 3, tc, false), "C11: second retransmission must be c (id 3)");
+    assert!(is_publish(&pending[2], 1, td, false), "C11: d (id 1, sent last) must be retransmitted last");
+    assert!(st.inflight() == 0, "C02: clean() must reset the window");
+    kani::cover!(true, "done");
+    core::mem::forget((ra, rb, rc, rd, k1, pending, st));
+}
+
+/// QoS2 flow half way + QoS1 publish, failure, session-present replay
+pub fn scn_release_replay() {
     let mut st = MqttState::new(2, false);
-    {
-        let (_lp, _lpa, inflight, _m, opub, _orel, _ipub) = st.verif_fields();
-        let mut n = 0;
-        if kani::any() {
-            opub[1] = Some(mk_publish(P { pkid: 1, qos2: false, tag: 1 }));
-            n += 1;
-        }
-        *inflight = n;
-    }
-    let id: u16 = kani::any();
-    kani::assume(id <= 3);
-    let r = st.handle_incoming_packet(Packet::PubAck(PubAck::new(id)));
-    let n = st.events.len();
-    let e0 = st.events.pop_front();
-    assert!(n >= 1, "cal");
-    assert!(matches!(&e0, Some(Event::Incoming(Packet::PubAck(a))) if a.pkid == id), "cal: incoming first");
-    core::mem::forget(e0);
-    core::mem::forget(st);
-    core::mem::forget(r);
-});
-sm_proof!(7, cal_f_pkteq, {
-    // cal_e but with full Packet equality and without forgetting
+    let (ta, tb): (u8, u8) = (kani::any(), kani::any());
+    kani::assume(ta < 4 && tb < 4);
+    let ra = st.handle_outgoing_packet(publish_req(ta, true));
+    let k = st.handle_incoming_packet(Packet::PubRec(PubRec::new(1)));
+    assert!(matches!(&k, Ok(Some(Packet::PubRel(r))) if r.pkid == 1), "C10: PUBREC must be answered with PUBREL");
+    let rb = st.handle_outgoing_packet(publish_req(tb, false));
+    assert!(st.inflight() == 2, "C07: QoS2 flow stays in flight until PUBCOMP");
+    let pending = st.clean();
+    assert!(pending.len() == 2, "C02: clean() must return the publish and the pending release");
+    assert!(is_publish(&pending[0], 2, tb, false), "C11: unacknowledged publishes come first");
+    assert!(matches!(&pending[1], Request::PubRel(r) if r.pkid == 1), "C02: pending release of id 1 missing");
+    // session present: both are transmitted again without user action and held again
+    let mut it = pending.into_iter();
+    let p0 = st.handle_outgoing_packet(it.next().unwrap());
+    let p1 = st.handle_outgoing_packet(it.next().unwrap());
+    assert!(matches!(&p0, Ok(Some(Packet::Publish(p))) if view(p) == P { pkid: 2, qos2: false, tag: tb }), "C02: publish not retransmitted unchanged");
+    assert!(matches!(&p1, Ok(Some(Packet::PubRel(r))) if r.pkid == 1), "C02: release not retransmitted");
+    assert!(st.inflight() == 2, "C07: inflight after replay");
+    let again = st.clean();
+    assert!(again.len() == 2, "C02: a second failure during the replay must still carry both over");
+    kani::cover!(true, "done");
+    core::mem::forget((ra, rb, k, p0, p1, it, again, st));
+}
+
+/// an outstanding ping does not survive the connection (no false alarm on the next one)
+pub fn scn_ping_across_reconnect() {
     let mut st = MqttState::new(2, false);
-    let id: u16 = kani::any();
-    kani::assume(id <= 3);
-    let pkt = Packet::PubAck(PubAck::new(id));
-    let r = st.handle_incoming_packet(pkt.clone());
-    let e0 = st.events.pop_front();
-    assert!(matches!(&e0, Some(Event::Incoming(p)) if *p == pkt), "cal: incoming first");
-});
+    let p1 = st.handle_outgoing_packet(Request::PingReq(PingReq));
+    assert!(matches!(&p1, Ok(Some(Packet::PingReq))), "C18: first ping refused");
+    let unanswered = st.handle_outgoing_packet(Request::PingReq(PingReq));
+    assert!(matches!(&unanswered, Err(StateError::AwaitPingResp)), "C18: silent broker not detected at the second interval");
+    let pending = st.clean();
+    assert!(pending.is_empty(), "C02: nothing to carry over");
+    let p2 = st.handle_outgoing_packet(Request::PingReq(PingReq));
+    assert!(matches!(&p2, Ok(Some(Packet::PingReq))), "C18: keep-alive failure reported on a fresh connection that was never pinged");
+    let resp = st.handle_incoming_packet(Packet::PingResp);
+    let p3 = st.handle_outgoing_packet(Request::PingReq(PingReq));
+    assert!(resp.is_ok() && matches!(&p3, Ok(Some(Packet::PingReq))), "C18: false alarm although the broker answered the ping");
+    kani::cover!(true, "done");
+    core::mem::forget((p1, unanswered, pending, p2, resp, p3, st));
+}
+
+sm_proof!(8, scn_wrap_order_m3, { scn_wrap_order() });
+sm_proof!(8, scn_release_replay_m2, { scn_release_replay() });
+sm_proof!(8, scn_ping_reconnect_m2, { scn_ping_across_reconnect() });
